@@ -15,6 +15,11 @@ random part too.
 * ``random`` (Hypothesis): random masks, payload = repeated random block cut to a length up to 64 KiB
   (boundary-heavy), passed as bytes / misaligned ctypes array / bytearray / memoryview / str, also with a
   misaligned *mask*.
+* ``history`` (deterministic enumeration): both implementations are process-wide function objects, so *sequences*
+  of back-to-back calls are checked too: same mask with ascending / descending lengths (every length 0..4096;
+  0..600 in quick), two masks interleaved, pseudo-shuffled length orders (k*mult mod 257), and "grow" triples
+  (length m, then m + 4k + r with the same mask, k = 1..20, r = 0..3).  After every call the fresh C build, the
+  selected function *and* Tornado's pure-Python reference are each compared with the own byte-wise definition.
 * ``reject``: masks of 0,1,2,3,5,8,... bytes must raise ``ValueError`` in the C and the Python function.
 * ``selection``: ``tornado.util._websocket_mask is tornado.speedups.websocket_mask``.
 
@@ -31,6 +36,12 @@ Sensitivity (quick tier, seed 1; the mutated speedups.c in a scratch copy is wha
   * ``_websocket_mask_python``: ``mask_arr[i % 4]`` -> ``mask_arr[i % 3]`` (reference side) caught
     (C18.differs_from_tornado_python)
   * util.py selection forced to the Python function ...................... caught (C18.selection)
+  * ``_websocket_mask_python`` rewritten as whole-integer XOR with a module-level single-slot cache of the repeated
+    mask whose "long enough" test compares ``n // 4`` (a pad 1-3 bytes short is reused after a call with the same
+    mask: length 10 or 68 then 69..71) ... caught at seeds 1,2,3 (C18.history_differs_from_definition, impl=python,
+    e.g. history ("asc", 1, 0, 600) step 69).  Before the ``history`` part existed this mutant made Hypothesis
+    declare the random part *flaky* (the failing call passed when repeated) and the run ended with exit 2; a
+    flaky verdict is now also reported as the violation ``C18.nondeterministic_result`` (``explore_guarded``).
   * NOT caught because equivalent: ``data_len >= 8`` -> ``> 8`` (planned in DESIGN) and ``>= 4`` -> ``> 4``:
     the remaining bytes fall through to the next, narrower loop and the result is identical.
 """
@@ -52,7 +63,8 @@ READY = True
 RULE = (
     "exhaustive grid: lengths 0..4096 (quick: 0..600) x data-pointer residues 0..7 mod 8 x 6 structured "
     "masks with a position-dependent payload; plus Hypothesis cases (random mask, block-repeated payload up "
-    "to 64 KiB, input kind, offset) and the mask-length rejection cases; non-trivial = length >= 8 with "
+    "to 64 KiB, input kind, offset), the mask-length rejection cases and enumerated call histories (same/interleaved "
+    "masks; ascending, descending, shuffled, growing lengths) on one function object; non-trivial = length >= 8 with "
     "offset != 0 or length mod 8 != 0; distinct = SHA-1 of the case"
 )
 ASSUMPTIONS = [
@@ -124,6 +136,21 @@ def misaligned(payload, off):
     return arr, backing, start
 
 
+_last_mismatch = {}
+
+
+def first_diff(a, b):
+    """Index of the first differing byte (length differences count), robust against non-bytes results."""
+    try:
+        n = min(len(a), len(b))
+        for i in range(n):
+            if a[i] != b[i]:
+                return i
+        return n
+    except TypeError:
+        return -1
+
+
 def check_result(ctx, impl_name, mask, payload, got, detail):
     if type(got) is not bytes:
         ctx.fail("C18.result_type", dict(detail, impl=impl_name, type=type(got).__name__))
@@ -131,13 +158,17 @@ def check_result(ctx, impl_name, mask, payload, got, detail):
         ctx.fail("C18.result_length", dict(detail, impl=impl_name, got_len=len(got)))
     want = definition(mask, payload)
     if got != want:
-        first = next(i for i in range(len(want)) if got[i] != want[i])
-        ctx.fail("C18.differs_from_definition",
-                 dict(detail, impl=impl_name, first_diff=first, got=got[max(0, first - 4):first + 8], want=want[max(0, first - 4):first + 8]))
+        first = first_diff(got, want)
+        d = dict(detail, impl=impl_name, first_diff=first, got=got[max(0, first - 4):first + 8], want=want[max(0, first - 4):first + 8])
+        _last_mismatch.update(clause="C18.differs_from_definition", detail=d)
+        ctx.fail("C18.differs_from_definition", d)
     ref = tornado.util._websocket_mask_python(mask, payload)
     if got != ref:
-        first = next(i for i in range(len(ref)) if got[i] != ref[i])
-        ctx.fail("C18.differs_from_tornado_python", dict(detail, impl=impl_name, first_diff=first))
+        # say which side is wrong: the own byte-wise definition is the reference for BOTH implementations
+        d = dict(detail, impl=impl_name, first_diff=first_diff(got, ref),
+                 python_reference_matches_definition=(ref == want), c_matches_definition=(got == want))
+        _last_mismatch.update(clause="C18.differs_from_tornado_python", detail=d)
+        ctx.fail("C18.differs_from_tornado_python", d)
 
 
 # ----------------------------------------------------------------------------- exhaustive grid
@@ -318,7 +349,111 @@ def run_selection(ctx, case):
     ctx.note(case, labels, nontrivial=True)
 
 
-PARTS = {"grid": run_grid, "random": run_random, "reject": run_reject, "selection": run_selection}
+# ----------------------------------------------------------------------------- call histories
+# Both implementations are process-wide function objects and could keep state between calls (caches of the
+# repeated mask, reused buffers ...).  A history case is a compact descriptor that expands to a *sequence*
+# of calls made back to back on the same function objects; after every call each implementation -- the
+# fresh C build, the selected function and Tornado's pure-Python reference -- is compared with the own
+# byte-wise definition.  Deterministic enumeration (no Hypothesis), so a failing sequence replays as is.
+def expand_history(case):
+    kind = case[0]
+    if kind == "asc":
+        _, mi, lo, hi = case
+        return [(mi, n) for n in range(lo, hi + 1)]
+    if kind == "desc":
+        _, mi, lo, hi = case
+        return [(mi, n) for n in range(hi, lo - 1, -1)]
+    if kind == "interleave":
+        _, mi, mj, lo, hi = case
+        return [(m, n) for n in range(lo, hi + 1) for m in (mi, mj)]
+    if kind == "shuffle":
+        _, mi, lo, count, mult = case  # count is prime, so k*mult mod count visits every length once
+        return [(mi, lo + (k * mult) % count) for k in range(count)]
+    if kind == "grow":
+        _, mi, m, k = case  # same mask: length m, then m + 4k + r (r = 1..3, i.e. n % 4 != m % 4), re-primed with m
+        out = []
+        for r in (1, 2, 3, 0):
+            out += [(mi, m), (mi, m + 4 * k + r), (mi, m), (mi, (max(m, 64) // 4 + k) * 4 + r)]
+        return out
+    raise AssertionError(kind)
+
+
+def history_cases(maxlen, thorough):
+    chunk = 512 if thorough else 600
+    for mi in range(len(MASKS)):
+        for lo in range(0, maxlen, chunk):
+            hi = min(maxlen, lo + chunk + 8)
+            yield ("asc", mi, lo, hi)
+            yield ("desc", mi, lo, hi)
+    pairs = [(i, j) for i in range(len(MASKS)) for j in range(len(MASKS)) if i != j] if thorough else [(0, 1), (2, 3), (4, 5), (3, 2)]
+    for mi, mj in pairs:
+        for lo in range(0, maxlen if thorough else 300, 300):
+            yield ("interleave", mi, mj, lo, min(maxlen, lo + 300))
+    for mi in range(len(MASKS)):
+        for lo in ([0, 250, 1000, 2000, 3000, 3839] if thorough else [0, 250]):
+            for mult in (100, 37, 255):
+                yield ("shuffle", mi, lo, 257, mult)
+    ms = [0, 1, 3, 4, 10, 60, 63, 64, 65, 67, 68, 100, 127, 128, 129, 255, 256, 1000, 1023, 1024, 4095]
+    for mi in ((2, 3, 5) if not thorough else range(len(MASKS))):
+        for m in ms:
+            for k in (range(1, 4) if not thorough else range(1, 21)):
+                yield ("grow", mi, m, k)
+
+
+def run_history(ctx, case):
+    calls = expand_history(case)
+    fns = impls() + [("python", tornado.util._websocket_mask_python)]
+    prev = None
+    for step, (mi, n) in enumerate(calls):
+        mask = MASKS[mi]
+        payload = PATTERNS[step % 8][:n] if n <= MAXLEN else (PATTERNS[step % 8] * (n // MAXLEN + 1))[:n]
+        want = definition(mask, payload)
+        for impl_name, f in fns:
+            got = f(mask, payload)
+            if got != want:
+                first = first_diff(got, want)
+                ctx.fail("C18.history_differs_from_definition",
+                         {"impl": impl_name, "history": case, "step": step, "mask": mask, "n": n, "previous_call": prev,
+                          "first_diff": first, "got": got[max(0, first - 4):first + 8] if isinstance(got, bytes) else repr(got),
+                          "want": want[max(0, first - 4):first + 8]})
+        prev = (mask, n)
+    ctx.note(case, {"hist_" + case[0], "hist_calls_%s" % ("lt100" if len(calls) < 100 else "ge100")}, nontrivial=True)
+
+
+# ----------------------------------------------------------------------------- nondeterminism safety net
+_nondeterminism = {}
+
+
+def run_nondeterministic(ctx, case):
+    """Reports a Hypothesis 'flaky' verdict (the same call gave different results at different times) as a
+    violation instead of a harness error.  Under --replay the recorded call is simply executed once more."""
+    _, part, recorded = case
+    if _nondeterminism.get(part):
+        ctx.note(case, {"nondeterministic_result"}, True)
+        ctx.fail("C18.nondeterministic_result",
+                 {"part": part, "why": "a mismatch against the reference was observed for a call that matched when the identical "
+                                       "call was repeated: an implementation depends on earlier calls", "last_mismatch": recorded})
+    d = recorded.get("detail", {}) if isinstance(recorded, dict) else {}
+    if "mask" in d and "n" in d and isinstance(d.get("block"), bytes):
+        payload = (d["block"] * (d["n"] // len(d["block"]) + 1))[:d["n"]]
+        for impl_name, f in impls():
+            check_result(ctx, impl_name, d["mask"], payload, f(d["mask"], payload), {"n": d["n"], "mask": d["mask"]})
+    ctx.note(case, {"nondeterministic_replay"}, True)
+
+
+def explore_guarded(ctx, strategy, run_case, budget, name):
+    try:
+        ctx.explore(strategy, run_case, budget, name=name)
+    except HarnessError as e:
+        if "flaky" not in str(e).lower():
+            raise
+        _nondeterminism[name] = True
+        ctx.enumerate([("nondeterministic", name, dict(_last_mismatch))], run_nondeterministic, name=name + "_nondeterministic",
+                      exhaustive=False)
+
+
+PARTS = {"grid": run_grid, "random": run_random, "reject": run_reject, "selection": run_selection, "history": run_history,
+         "random_nondeterministic": run_nondeterministic, "reject_nondeterministic": run_nondeterministic}
 
 
 def main(ctx):
@@ -326,5 +461,6 @@ def main(ctx):
     ctx.run_replays(PARTS)
     ctx.enumerate([("selection",)], run_selection, name="selection")
     ctx.enumerate(grid_cases(MAXLEN if ctx.thorough else 600), run_grid, name="grid")
-    ctx.explore(random_s, run_random, ctx.n(1200, 48000), name="random")
-    ctx.explore(reject_s, run_reject, ctx.n(300, 8000), name="reject")
+    ctx.enumerate(history_cases(MAXLEN if ctx.thorough else 600, ctx.thorough), run_history, name="history")
+    explore_guarded(ctx, random_s, run_random, ctx.n(1200, 48000), "random")
+    explore_guarded(ctx, reject_s, run_reject, ctx.n(300, 8000), "reject")
